@@ -47,7 +47,7 @@ def entry_lines(e, dt_style="hex4"):
     if e.high_text is not None:
         out.append("HighLimit=%s" % e.high_text)
     if e.pdo is not None:
-        out.append("PDOMapping=%s" % num(e.pdo))
+        out.append("PDOMapping=%s" % (getattr(e, "pdo_text", None) or num(e.pdo)))
     if e.factor is not None:
         out.append("Factor=%s" % e.factor)
     if e.unit is not None:
